@@ -23,14 +23,15 @@ VARIABLES keys,      \* server: sequence of ticket key ids, first seals
           cauth,     \* server: "none" | "request" | "requireany" | "verifyifgiven" | "require" (= require and verify)
           disabled,  \* server: SessionTicketsDisabled
           ccert,     \* client presents a certificate when asked
+          cuntrusted, \* ... and that certificate is issued by a CA the server does not trust
           cvers,     \* highest version the client offers (the server supports all): the negotiated version
           cache,     \* client: sequence of [name, ticket] most recent LAST; ticket = [key, suite, hascert, sid, bad]
           nextSid,   \* fresh session identities (= distinct master secrets)
           hist
-vars == <<keys, nextKey, ssuites, csuites, cauth, disabled, ccert, cvers, cache, nextSid, hist>>
+vars == <<keys, nextKey, ssuites, csuites, cauth, disabled, ccert, cuntrusted, cvers, cache, nextSid, hist>>
 
 Init == /\ keys = <<1>> /\ nextKey = 2 /\ ssuites = Suites /\ csuites = Suites /\ cauth = "none"
-        /\ disabled = FALSE /\ ccert = FALSE /\ cvers \in (Versions \cup {12}) /\ cache = <<>> /\ nextSid = 1 /\ hist = <<>>
+        /\ disabled = FALSE /\ ccert = FALSE /\ cuntrusted = FALSE /\ cvers \in (Versions \cup {12}) /\ cache = <<>> /\ nextSid = 1 /\ hist = <<>>
 
 InSeq(s, x) == \E i \in 1..Len(s) : s[i] = x
 Lookup(n) == LET idx == {i \in 1..Len(cache) : cache[i].name = n} IN
@@ -44,6 +45,7 @@ Pref == <<"CBC", "GCM">>
 \* (the AEAD suite needs the newest version)
 Common == SelectSeq(Pref, LAMBDA x : x \in csuites /\ x \in ssuites /\ (x # "GCM" \/ cvers = 12))
 
+Verifying == {"verifyifgiven", "require"}     \* policies under which a presented certificate must chain to the client CAs
 NeedCert == {"requireany", "require"}        \* policies under which a session without a client certificate is forbidden
 \* the resumption gate of the statement
 Gate(t) == /\ ~disabled /\ ~t.bad
@@ -52,52 +54,59 @@ Gate(t) == /\ ~disabled /\ ~t.bad
            /\ t.suite \in csuites /\ t.suite \in ssuites
            /\ ~(cauth \in NeedCert /\ ~t.hascert)
            /\ ~(cauth = "none" /\ t.hascert)
+           /\ ~(cauth \in Verifying /\ t.hascert /\ t.untrusted)     \* a certificate the current policy would not accept
 
 \* one connection to server name n
 Connect(n) ==
   /\ Common # <<>>                                   \* (no common suite is C06's subject)
-  /\ (cauth \in NeedCert => ccert)                   \* (policy failures are C06's subject)
   /\ LET l == Lookup(n)
          offered == l.found
          resume == offered /\ Gate(l.t)
+         hc == ccert /\ cauth # "none"                 \* a full handshake would carry the client's certificate
+         \* would a full handshake satisfy the server's client-certificate policy?
+         fullOK == (cauth \in NeedCert => ccert) /\ ~(cauth \in Verifying /\ hc /\ cuntrusted)
      IN IF resume
           THEN \* abbreviated handshake: same session; a ticket sealed under an old key is refreshed
                /\ cache' = Put(n, [l.t EXCEPT !.key = keys[1]])
                /\ UNCHANGED nextSid
                /\ hist' = Append(hist, [op |-> "connect", name |-> n, vers |-> cvers, offered |-> TRUE, expect |-> "resume", sid |-> l.t.sid,
                                         suite |-> l.t.suite, hascert |-> l.t.hascert])
-          ELSE \* full handshake; a new ticket iff tickets are enabled
-               LET hc == ccert /\ cauth # "none"
-                   t == [key |-> keys[1], suite |-> Common[1], hascert |-> hc, sid |-> nextSid, bad |-> FALSE, vers |-> cvers] IN
+          ELSE IF fullOK
+          THEN \* full handshake; a new ticket iff tickets are enabled
+               LET t == [key |-> keys[1], suite |-> Common[1], hascert |-> hc, untrusted |-> hc /\ cuntrusted, sid |-> nextSid, bad |-> FALSE, vers |-> cvers] IN
                /\ cache' = IF disabled THEN cache ELSE Put(n, t)
                /\ nextSid' = nextSid + 1
                /\ hist' = Append(hist, [op |-> "connect", name |-> n, vers |-> cvers, offered |-> offered, expect |-> "full", sid |-> nextSid,
                                         suite |-> Common[1], hascert |-> hc])
-  /\ UNCHANGED <<keys, nextKey, ssuites, csuites, cauth, disabled, ccert, cvers>>
+          ELSE \* the full handshake the server falls back to fails on the client-certificate policy: nobody completes
+               /\ UNCHANGED <<cache, nextSid>>
+               /\ hist' = Append(hist, [op |-> "connect", name |-> n, vers |-> cvers, offered |-> offered, expect |-> "fail", sid |-> 0,
+                                        suite |-> Common[1], hascert |-> hc])
+  /\ UNCHANGED <<keys, nextKey, ssuites, csuites, cauth, disabled, ccert, cuntrusted, cvers>>
 
 \* SetSessionTicketKeys: a new first key, keeping the previous first key (keep) or none of the old ones
 Rotate(keep) == /\ keys' = IF keep THEN <<nextKey, keys[1]>> ELSE <<nextKey>>
                 /\ nextKey' = nextKey + 1
                 /\ hist' = Append(hist, [op |-> "rotate", keep |-> keep])
-                /\ UNCHANGED <<ssuites, csuites, cauth, disabled, ccert, cvers, cache, nextSid>>
+                /\ UNCHANGED <<ssuites, csuites, cauth, disabled, ccert, cuntrusted, cvers, cache, nextSid>>
 SetSSuites(x) == /\ x # ssuites /\ ssuites' = x /\ hist' = Append(hist, [op |-> "ssuites", s |-> x])
-                 /\ UNCHANGED <<keys, nextKey, csuites, cauth, disabled, ccert, cvers, cache, nextSid>>
+                 /\ UNCHANGED <<keys, nextKey, csuites, cauth, disabled, ccert, cuntrusted, cvers, cache, nextSid>>
 SetCSuites(x) == /\ x # csuites /\ csuites' = x /\ hist' = Append(hist, [op |-> "csuites", s |-> x])
-                 /\ UNCHANGED <<keys, nextKey, ssuites, cauth, disabled, ccert, cvers, cache, nextSid>>
-SetAuth(a, cc) == /\ (a # cauth \/ cc # ccert) /\ cauth' = a /\ ccert' = cc
-                  /\ hist' = Append(hist, [op |-> "auth", a |-> a, ccert |-> cc])
+                 /\ UNCHANGED <<keys, nextKey, ssuites, cauth, disabled, ccert, cuntrusted, cvers, cache, nextSid>>
+SetAuth(a, cc, un) == /\ (a # cauth \/ cc # ccert \/ un # cuntrusted) /\ (un => cc) /\ cauth' = a /\ ccert' = cc /\ cuntrusted' = un
+                  /\ hist' = Append(hist, [op |-> "auth", a |-> a, ccert |-> cc, untrusted |-> un])
                   /\ UNCHANGED <<keys, nextKey, ssuites, csuites, disabled, cvers, cache, nextSid>>
 SetDisabled(b) == /\ b # disabled /\ disabled' = b /\ hist' = Append(hist, [op |-> "disabled", b |-> b])
-                  /\ UNCHANGED <<keys, nextKey, ssuites, csuites, cauth, ccert, cvers, cache, nextSid>>
+                  /\ UNCHANGED <<keys, nextKey, ssuites, csuites, cauth, ccert, cuntrusted, cvers, cache, nextSid>>
 \* the cached ticket for n is changed in one byte of region r, or truncated
 Tamper(n, r) == /\ Lookup(n).found /\ ~Lookup(n).t.bad
                 /\ cache' = [i \in 1..Len(cache) |-> IF cache[i].name = n THEN [cache[i] EXCEPT !.ticket.bad = TRUE] ELSE cache[i]]
                 /\ hist' = Append(hist, [op |-> "tamper", name |-> n, region |-> r])
-                /\ UNCHANGED <<keys, nextKey, ssuites, csuites, cauth, disabled, ccert, cvers, nextSid>>
+                /\ UNCHANGED <<keys, nextKey, ssuites, csuites, cauth, disabled, ccert, cuntrusted, cvers, nextSid>>
 
 \* the client raises / lowers the highest version it offers (TLS 1.1 = 11, TLS 1.2 = 12); GMSSL has a single version
 SetVers(v) == /\ Versions # {} /\ v # cvers /\ cvers' = v /\ hist' = Append(hist, [op |-> "vers", v |-> v])
-              /\ UNCHANGED <<keys, nextKey, ssuites, csuites, cauth, disabled, ccert, cache, nextSid>>
+              /\ UNCHANGED <<keys, nextKey, ssuites, csuites, cauth, disabled, ccert, cuntrusted, cache, nextSid>>
 NonEmpty == {x \in SUBSET Suites : x # {}}
 \* an optional shape restricts which operation may come at which position (used to enumerate families of histories
 \* exhaustively, e.g. "set the client-certificate policy, connect, any change, connect, connect")
@@ -109,7 +118,7 @@ Next == /\ Len(hist) < MaxOps
            \/ Allowed("rotate") /\ \E k \in BOOLEAN : Rotate(k)
            \/ Allowed("ssuites") /\ \E x \in NonEmpty : SetSSuites(x)
            \/ Allowed("csuites") /\ \E x \in NonEmpty : SetCSuites(x)
-           \/ Allowed("auth") /\ \E a \in {"none", "request", "requireany", "verifyifgiven", "require"}, cc \in BOOLEAN : SetAuth(a, cc)
+           \/ Allowed("auth") /\ \E a \in {"none", "request", "requireany", "verifyifgiven", "require"}, cc \in BOOLEAN, un \in BOOLEAN : SetAuth(a, cc, un)
            \/ Allowed("disabled") /\ \E b \in BOOLEAN : SetDisabled(b)
            \/ Allowed("vers") /\ \E v \in Versions : SetVers(v)
            \/ Allowed("tamper") /\ \E n \in Names, r \in {"keyname", "iv", "state", "mac", "truncate", "extend"} : Tamper(n, r)
@@ -124,6 +133,6 @@ ResumeContinues == \A i \in 1..Len(hist) : (Conn(i) /\ hist[i].expect = "resume"
 \* every cached ticket was sealed under a key that was first at the time, and names an existing session
 CacheSane == \A i \in 1..Len(cache) : cache[i].ticket.sid < nextSid /\ cache[i].ticket.key < nextKey
 CacheBound == Len(cache) <= Cap
-View == <<keys, ssuites, csuites, cauth, disabled, ccert, cvers, cache, Len(hist)>>
+View == <<keys, ssuites, csuites, cauth, disabled, ccert, cuntrusted, cvers, cache, Len(hist)>>
 Emit == Len(hist) = MaxOps => PrintT(<<"BEH", ToJson(hist)>>)
 =============================================================================
